@@ -84,6 +84,7 @@ func runC17(c *Ctx, r *Report) {
 	importFoundation(c, r, "C17", "driver-options")
 	importFoundation(c, r, "C17", "read-loop")
 	importFoundation(c, r, "C17", "priv-steps")
+	importFoundation(c, r, "C17", "transport-pipe")
 	r.Rule("C17/variant-merged-first", "NewPlatformVariant merges the variant into the platform before the driver is built from it", 1)
 	checkVariantMergedFirst(c, r, "C17/variant-merged-first")
 	r.Rule("C17/error-classes", "each failure site named by the property wraps the sentinel the property names (timeout / auth / connection / privilege / NETCONF / operation / platform error)", 3)
